@@ -293,6 +293,10 @@ fn end_to_end(ctx: &Ctx, tally: &mut Tally) -> Value {
         if let Some(u) = v["unavailable"].as_str() {
             return json!({"skipped": format!("the sandbox does not allow it: {u}")});
         }
+        if e2e::too_slow(&v) {
+            report.push(json!({"scenario": sc.name, "verdict": e2e::slow_note(&v)}));
+            continue;
+        }
         let doc = json!({"check": "C07", "phase": "end to end through the release binary", "scenario": sc.name, "command_line": sc.args, "observed": v});
         let pubs = v["publications"].as_array().cloned().unwrap_or_default();
         let mut synced = 0;
